@@ -83,7 +83,17 @@ def run(ck):
         exits = [n for n in walk(ob['body'], enter_closures=False) if n.get('k') in ('Try', 'Ret')]
         ck.ob('R20.2', 'no-failure-exit', not exits and not (ob.get('output') or '').startswith('std::option::Option'), L.loc(ob['body']), 'ObjectCodeMap::build cannot fail (returns Self, no `?`)')
         fm = [c for c in H.calls_in(ob['body']) if c.get('m') == 'filter_map' and any(H.is_call_to(x, 'resolve_attached_class') for a in c['args'] for x in H.calls_in(a))]
-        ck.ob('R20.2', 'attached-type-failure-is-per-type', len(fm) == 1, L.loc(fm[0]) if fm else '', 'attached types are resolved inside filter_map: one bad type drops only its own bindings')
+        okp = len(fm) == 1
+        whyp = 'attached types are resolved inside filter_map: one bad type drops only its own bindings'
+        if not fm:
+            # loop form: resolved per iteration of a loop over the attached types; a failure skips that iteration only
+            rc = [c for c in H.calls_in(ob['body']) if H.is_call_to(c, 'resolve_attached_class')]
+            lp_ = next((a for c in rc for a in H.ancestors(ob, c) if a.get('k') == 'For'), None) if len(rc) == 1 else None
+            if lp_ is not None:
+                hard = [x.get('k') for x in walk(lp_['body'], enter_closures=False) if x.get('k') in ('Ret', 'Break', 'Try')]
+                okp = not hard and (H.some_guard_dominates(ob, rc[0], next((c for c in H.calls_in(lp_['body']) if c.get('m') == 'insert'), rc[0])))
+                whyp = 'attached types are resolved one per loop iteration; a bad type skips its own iteration' if okp else 'the loop over the attached types can be left early (%s)' % hard
+        ck.ob('R20.2', 'attached-type-failure-is-per-type', okp, L.loc(fm[0]) if fm else L.loc(ob['body']), whyp)
     bp = L.fn('uigen::objcode::build_properties_callbacks')
     if bp is None:
         ck.floor('R20.2', 0, 1, 'fn build_properties_callbacks')
